@@ -260,9 +260,12 @@ outer:
 		}
 
 		// Move backtrace from body to header.
+		s.Lock()
+		ttl := s.ttl
+		s.Unlock()
 		hops := 0
 		for {
-			if hops >= s.ttl {
+			if hops >= ttl {
 				m.Free() // ErrTooManyHops
 				continue outer
 			}
@@ -343,10 +346,13 @@ func (*socket) Info() protocol.Info {
 
 func (s *socket) AddPipe(pp protocol.Pipe) error {
 
+	s.Lock()
+	sendQLen := s.sendQLen
+	s.Unlock()
 	p := &pipe{
 		p:      pp,
 		s:      s,
-		sendQ:  make(chan *protocol.Message, s.sendQLen),
+		sendQ:  make(chan *protocol.Message, sendQLen),
 		closeQ: make(chan struct{}),
 	}
 	pp.SetPrivate(p)
